@@ -313,12 +313,14 @@ def run(ck):
     reader_is_stateless(ck, "C17.7")
     column_names(ck, "C17.8")
     frame_integrity(ck, "C17.9")
-    header_driven_selection(ck, "C17.10")
+    if ck.wants("C17.10"):
+        header_driven_selection(ck, "C17.10")
     ck.clause("C17.11", "the id filter is read once: the readers' signature admits any Iterable[int], and an iterator that a helper has "
                         "already walked (to warn about unknown ids, to count them) selects nothing in the filter that follows")
     from ..rules.iters import run_iterator_rule as _rir
     rfns = [f for f in p.nontest_functions() if f.module.name == "src.parsers.cmap_reader" and not f.is_lambda]
-    _rir(ck, "C17.11", rfns, iterable_params=True)
+    if ck.wants("C17.11"):
+        _rir(ck, "C17.11", rfns, iterable_params=True)
     ck.floor("C17.11 functions of the CMAP reader examined", len(rfns), 5)
     if not any(o.rule == "C17.11" and o.status == "VIOLATION" for o in ck.obligations):
         ck.ok("C17.11", "CmapReader:id-filter-read-once", "src/parsers/cmap_reader.py", f"{len(rfns)} functions: no Iterable parameter is walked twice")
